@@ -671,7 +671,7 @@ func (m *malGen) attackShape() {
 		}
 	case 4:
 		m.feat("mal.shape.dangling-symlink")
-		m.ts.Put(p, 'l', Pick(m.r, []string{"/nonexistent/x", "nonexistent", "../nonexistent/y", ""+"."}))
+		m.ts.Put(p, 'l', Pick(m.r, []string{"/nonexistent/x", "nonexistent", "../nonexistent/y", "" + "."}))
 	case 5:
 		m.feat("mal.shape.symlink")
 		m.ts.Put(p, 'l', Pick(m.r, []string{".", "..", "../..", "Makefile", "DESCR", "/", "../../mk", "/dev/null"}))
